@@ -8,7 +8,7 @@ use proc_macro2::TokenStream;
 use proc_macro_error::emit_error;
 use quote::quote;
 use syn::spanned::Spanned;
-use syn::{GenericParam, ItemImpl, Type};
+use syn::{GenericParam, Ident, ItemImpl, Type};
 
 /// Representation of single struct message
 pub struct StructMessage<'a> {
@@ -109,6 +109,13 @@ impl<'a> StructMessage<'a> {
             .msg_type()
             .emit_ctx_type(&custom.query_or_default());
         let fields_names: Vec<_> = variant.fields().iter().map(MsgField::name).collect();
+        // Bind the fields to names of our own, so that a parameter called `contract` or `ctx`
+        // does not shadow the arguments of `dispatch`.
+        let fields_binders: Vec<_> = fields_names
+            .iter()
+            .zip(1..)
+            .map(|(field, num)| Ident::new(&format!("field{}", num), field.span()))
+            .collect();
         let parameters = variant.fields().iter().map(MsgField::emit_method_field);
         let fields = variant.fields().iter().map(MsgField::emit_pub);
 
@@ -131,8 +138,8 @@ impl<'a> StructMessage<'a> {
 
                 pub fn dispatch #bracketed_unused_generics (self, contract: &#contract_type, ctx: #ctx_type) -> #ret_type #full_where
                 {
-                    let Self { #(#fields_names,)* } = self;
-                    contract.#function_name(Into::into(ctx), #(#fields_names,)*).map_err(Into::into)
+                    let Self { #(#fields_names: #fields_binders,)* } = self;
+                    contract.#function_name(Into::into(ctx), #(#fields_binders,)*).map_err(Into::into)
                 }
             }
         }
